@@ -19,6 +19,7 @@ func init() {
 			Explanation: "Structural necessary conditions of the byte-exact round trip with exactly one outcome, located where the property's risk lies (buffer reuse across invocations, reservation state): the per-init request buffer is reset before every reuse and InvokeRenderer objects are built only by the constructor that does so; the event is read once through LimitReader into that buffer and only filled/measured/read-without-consuming, and the body written to the runtime is exactly the buffer's bytes; " +
 				"the runtime headers and the front end's Invoke record are wired from the right fields (request id, client context decoded from base64, ARN, deadline = ParseInt -> MonoToEpoch -> ms); the emulator draws a fresh uuid per reservation, FastInvoke overwrites the id with the reserved one, and the deadline is Monotime()+Token.FunctionTimeout with FunctionTimeout wired from Init's timeout; " +
 				"the single reply sink is guarded (id, ReplySent, stream), writes at most once and marks ReplySent; the front end returns the proxy's body. " +
+				"Added after the blind rounds: one body per request path; the answer follows the reset and the reset clears stale completion messages; the reply sink is one critical section; a response is delivered whole or refused as too large. " +
 				"NOT decided: byte equality itself through io.Reader/ResponseWriter implementations; 'to nobody else' across goroutines beyond the single-writer/lock argument; the HTTP stack.",
 			RuleText:    "one obligation per buffer operation site, per header/field wiring edge (origin set of the value), per exit/producer of the reply sink",
 			Assumptions: trusted,
